@@ -235,7 +235,7 @@ PROPS = {
                 dict(suite="lex", n_quick=2000, n_thorough=100000, what="unterminated literals etc.: all token fields")],
         oracle_n_quick=150, oracle_n_thorough=5000, oracle_n_search=600,
         explanation="C12: C12_error_not_early, C12_sound, C12_sound_lexed, C12_lax_contains_strict.",
-        open_statements=["soundness w.r.t. the strict grammar is false on the unchanged tree exactly by the recorded findings KF6, KF7, KF9, KF11-KF16; lexical relaxations (KF13 leading-zero floats, KF14 reserved words) are outside the token-level grammar"],
+        open_statements=["soundness w.r.t. the strict grammar is false on the unchanged tree exactly by the recorded findings KF6, KF7, KF9, KF11, KF12, KF14-KF16; lexical relaxations (KF14 reserved words) are outside the token-level grammar"],
     ),
 }
 
